@@ -378,9 +378,9 @@ def sel_for(tier, *tags):
     return sel_tags()
 
 
-LONG_QUICK = (('kw_ident', 17), ('long_loop', 72))
+LONG_QUICK = (('kw_ident', 17), ('long_loop', 72), ('neg_loop_bytes', 20))
 LONG_THOROUGH = (('kw_ident', 17), ('holes', 17), ('strings', 17), ('numbers', 17), ('skips', 17), ('nested_rep1', 17),
-                 ('long_loop', 72), ('long_loop', 136))
+                 ('long_loop', 72), ('long_loop', 136), ('neg_loop_bytes', 28), ('strings', 20))
 
 
 def c01(tier, seed):
@@ -499,7 +499,8 @@ def kani_cross_check(prop, ev, harnesses):
 def c20(tier, seed):
     tp = tier_params(tier)
     return lex_family('C20', tier, seed, relevant={'C20'}, select=sel_for(tier, 'backtrack'), name='lex',
-                      long_defs=(('long_loop', 72),) if tier == 'quick' else (('long_loop', 72), ('long_loop', 136), ('kw_ident', 17)),
+                      long_defs=(('long_loop', 72), ('neg_loop_bytes', 20)) if tier == 'quick' else
+                      (('long_loop', 72), ('long_loop', 136), ('kw_ident', 17), ('neg_loop_bytes', 28), ('strings', 20)),
                       **tp)
 
 
